@@ -460,6 +460,9 @@ func (s *Seq) explain(q *Rq, a, b Ans, d Diff, x *xctx) []string {
 				dd.OrderOnly = false
 			}
 		}
+		if os.Getenv("C16_DEBUG") != "" {
+			fmt.Fprintf(os.Stderr, "DBG explain end: set=%v dd=%+v ai=%d bi=%d\n", set, dd, len(ai), len(bi))
+		}
 		if dd.Any() {
 			return nil
 		}
